@@ -27,6 +27,12 @@
 //        with ptr::copy_nonoverlapping, so that CBMC keeps the (concrete)
 //        lengths and label offsets of names.  The real routine is C14's
 //        subject.
+//   S9   TimeSigned::to_unix_time -> `to_unix_time_model` (shift/or of the six
+//        octets).  The real function assembles the u64 with copy_from_slice,
+//        through which CBMC loses constants, so that check_time on CONCRETE
+//        times would fork into both outcomes.  c10_to_unix_time_model decides,
+//        without any stub, that model and real function agree on all 2^48
+//        values.
 //   The recording of S5 lives in a private module of message::tsig; the
 //   harness reads it through `rec_fetch`/`rec_reset`, whose bodies are
 //   provided by #[kani::stub] (the only way across the module boundary).
@@ -129,6 +135,26 @@ unsafe fn new_boxed_name_model(wire_len: usize, label_offsets: &[u8], slices: &[
 }
 
 // --------------------------------------------------------------------------
+// Stub S9: TimeSigned::to_unix_time
+// --------------------------------------------------------------------------
+
+fn to_unix_time_model(t: TimeSigned) -> u64 {
+    let a = t.as_array();
+    ((a[0] as u64) << 40) | ((a[1] as u64) << 32) | ((a[2] as u64) << 24) | ((a[3] as u64) << 16) | ((a[4] as u64) << 8) | a[5] as u64
+}
+
+// @harness props=C10 tier=quick mem=2 t=300
+//   fn="TimeSigned::to_unix_time" bound="all 2^48 time values; justifies stub S9" sym="t:[u8;6]"
+#[kani::proof]
+#[kani::unwind(10)]
+fn c10_to_unix_time_model() {
+    let t: [u8; 6] = kani::any();
+    let ts = TimeSigned::from(t);
+    assert!(ts.to_unix_time() == to_unix_time_model(ts), "[C10] stub S9 equals TimeSigned::to_unix_time on every value");
+    kani::cover!(ts.to_unix_time() == 0xffff_ffff_ffff, "largest time");
+}
+
+// --------------------------------------------------------------------------
 // Stub S5b: Algorithm::from_name
 // --------------------------------------------------------------------------
 
@@ -226,7 +252,7 @@ impl Stream {
 
 fn same_chunk(got: &[u8; REC_CAP], e: &Stream, from: usize) {
     let mut i = from;
-    while i < from + 32 {
+    while i < from + 16 {
         if i < e.n {
             assert!(got[i] == e.s[i], "[C10] MAC input equals the RFC 8945 4.3 digest stream octet for octet");
         }
@@ -241,10 +267,11 @@ fn recorded_is(e: &Stream) {
     assert!(!ovf, "[C10] recording overflow (harness capacity)");
     assert!(made == 1, "[C10] exactly one MAC computation");
     assert!(n == e.n, "[C10] MAC input has the length of the RFC 8945 4.3 digest stream");
-    same_chunk(&got, e, 0);
-    same_chunk(&got, e, 32);
-    same_chunk(&got, e, 64);
-    same_chunk(&got, e, 96);
+    let mut c = 0;
+    while c < 8 {
+        same_chunk(&got, e, c * 16);
+        c += 1;
+    }
 }
 
 // --------------------------------------------------------------------------
@@ -644,6 +671,7 @@ macro_rules! c10_stubs {
         #[kani::stub(crate::message::tsig::Algorithm::name, crate::message::tsig::kani_tsig_mac::alg_name_static)]
         #[kani::stub(crate::message::tsig::Algorithm::from_name, from_name_model)]
         #[kani::stub(crate::name::new_boxed_name, new_boxed_name_model)]
+        #[kani::stub(crate::rr::rdata::TimeSigned::to_unix_time, to_unix_time_model)]
         #[kani::stub(rec_fetch, crate::message::tsig::kani_tsig_mac::rec_fetch_impl)]
         #[kani::stub(rec_reset, crate::message::tsig::kani_tsig_mac::rec_reset_impl)]
         #[kani::stub(rec_force, crate::message::tsig::kani_tsig_mac::rec_force_impl)]
@@ -658,57 +686,57 @@ macro_rules! c10_stubs {
 
 // ---- step 3: verification and the response TSIG
 
-// @harness name=c10_ok_sha256_l32 props=C10 tier=quick mem=6 t=1800 stubs="S5,S5a,S8" kani="--no-assertion-reach-checks"
+// @harness name=c10_ok_sha256_l32 props=C10 tier=thorough mem=10 t=3400 stubs="S5,S5a,S8,S9" kani="--no-assertion-reach-checks"
 //   fn="verify_tsig_and_write_tsig_rr,ReadTsigRr::try_from,ReadTsigRr::verify_request,verification_core,check_mac_size,check_time,PreparedTsigRr::new_from_read,Writer::set_tsig,Writer::finish_with_mac,PreparedTsigRr::sign_response"
 //   bound="17-octet query (symbolic ID, flags, QTYPE, QCLASS) + TSIG RR: key 'k.', hmac-sha256, 32 symbolic MAC octets, symbolic original ID and error field; 2 symbolic key octets; MAC model answers 'match'; time signed T0, fudge 300, now = T0 + 300 (edge of the window); 512-octet response buffer; unwind 34"
 //   sym="id, flags, qtype, qclass, key:[u8;2], mac:[u8;32], original_id, error"
 c10_stubs!(c10_ok_sha256_l32, 34, verify_case::<32, 61>(AlgSel::Sha256, true, Clock::At(300), false));
 
-// @harness name=c10_ok_sha1_l10_early_upcase props=C10 tier=quick mem=6 t=1800 stubs="S5,S5a,S8" kani="--no-assertion-reach-checks"
+// @harness name=c10_ok_sha1_l10_early_upcase props=C10 tier=thorough mem=10 t=3400 stubs="S5,S5a,S8,S9" kani="--no-assertion-reach-checks"
 //   fn="verify_tsig_and_write_tsig_rr,ReadTsigRr::try_from,verification_core,check_mac_size,check_time,Writer::finish_with_mac,PreparedTsigRr::sign_response"
 //   bound="as c10_ok_sha256_l32 with hmac-sha1, a MAC truncated to 10 octets (the minimum), owner 'K.' and algorithm 'HMAC-SHA1.' in upper case, now = T0 - 300 (early edge); unwind 34"
 //   sym="id, flags, qtype, qclass, key:[u8;2], mac:[u8;10], original_id, error"
-c10_stubs!(c10_ok_sha1_l10_early_upcase, 34, verify_case::<10, 37>(AlgSel::Sha1, true, Clock::At(-300), true));
+c10_stubs!(c10_ok_sha1_l10_early_upcase, 22, verify_case::<10, 37>(AlgSel::Sha1, true, Clock::At(-300), true));
 
-// @harness name=c10_badtime_sha1_l20_late props=C10 tier=quick mem=6 t=1800 stubs="S5,S5a,S8" kani="--no-assertion-reach-checks"
+// @harness name=c10_badtime_sha1_l20_late props=C10 tier=thorough mem=10 t=3400 stubs="S5,S5a,S8,S9" kani="--no-assertion-reach-checks"
 //   fn="verify_tsig_and_write_tsig_rr,check_time,PreparedTsigRr::new_from_read,PreparedTsigRr::other,Writer::finish_with_mac,PreparedTsigRr::sign_response"
 //   bound="hmac-sha1, full 20-octet MAC that the MAC model accepts, now = T0 + 301 (one second past the window): NOTAUTH/BADTIME, signed, other data = server time; unwind 34"
 //   sym="id, flags, qtype, qclass, key:[u8;2], mac:[u8;20], original_id, error"
-c10_stubs!(c10_badtime_sha1_l20_late, 34, verify_case::<20, 47>(AlgSel::Sha1, true, Clock::At(301), false));
+c10_stubs!(c10_badtime_sha1_l20_late, 22, verify_case::<20, 47>(AlgSel::Sha1, true, Clock::At(301), false));
 
-// @harness name=c10_badtime_sha256_l16_early props=C10 tier=thorough mem=6 t=1800 stubs="S5,S5a,S8" kani="--no-assertion-reach-checks"
+// @harness name=c10_badtime_sha256_l16_early props=C10 tier=thorough mem=10 t=3400 stubs="S5,S5a,S8,S9" kani="--no-assertion-reach-checks"
 //   fn="verify_tsig_and_write_tsig_rr,check_time,PreparedTsigRr::new_from_read,Writer::finish_with_mac"
 //   bound="hmac-sha256, MAC truncated to 16, accepted by the MAC model, now = T0 - 301: BADTIME; unwind 34"
 //   sym="id, flags, qtype, qclass, key:[u8;2], mac:[u8;16], original_id, error"
 c10_stubs!(c10_badtime_sha256_l16_early, 34, verify_case::<16, 45>(AlgSel::Sha256, true, Clock::At(-301), false));
 
-// @harness name=c10_badsig_sha256_l32 props=C10 tier=quick mem=6 t=1800 stubs="S5,S5a,S8" kani="--no-assertion-reach-checks"
+// @harness name=c10_badsig_sha256_l32 props=C10 tier=quick mem=6 t=1800 stubs="S5,S5a,S8,S9" kani="--no-assertion-reach-checks"
 //   fn="verify_tsig_and_write_tsig_rr,verification_core,Writer::set_tsig,Writer::finish_with_mac,PreparedTsigRr::unsigned"
 //   bound="hmac-sha256, 32-octet MAC that the MAC model rejects; time signed, fudge and now fully symbolic: NOTAUTH/BADSIG, empty MAC, whatever the time; unwind 34"
 //   sym="id, flags, qtype, qclass, key, mac:[u8;32], original_id, error, time:[u8;6], fudge:u16, now:[u8;6]"
 c10_stubs!(c10_badsig_sha256_l32, 34, verify_case::<32, 61>(AlgSel::Sha256, false, Clock::Any, false));
 
-// @harness name=c10_badsig_sha1_l20 props=C10 tier=thorough mem=6 t=1800 stubs="S5,S5a,S8" kani="--no-assertion-reach-checks"
+// @harness name=c10_badsig_sha1_l20 props=C10 tier=thorough mem=6 t=1800 stubs="S5,S5a,S8,S9" kani="--no-assertion-reach-checks"
 //   fn="verify_tsig_and_write_tsig_rr" bound="hmac-sha1, 20-octet MAC rejected by the MAC model; symbolic times; unwind 34"
 //   sym="id, flags, qtype, qclass, key, mac:[u8;20], original_id, error, time, fudge, now"
-c10_stubs!(c10_badsig_sha1_l20, 34, verify_case::<20, 47>(AlgSel::Sha1, false, Clock::Any, false));
+c10_stubs!(c10_badsig_sha1_l20, 22, verify_case::<20, 47>(AlgSel::Sha1, false, Clock::Any, false));
 
-// @harness name=c10_formerr_sha256_l0 props=C10 tier=quick mem=6 t=1800 stubs="S5,S5a,S8" kani="--no-assertion-reach-checks"
+// @harness name=c10_formerr_sha256_l0 props=C10 tier=quick mem=6 t=1800 stubs="S5,S5a,S8,S9" kani="--no-assertion-reach-checks"
 //   fn="verify_tsig_and_write_tsig_rr,check_mac_size" bound="hmac-sha256 with an empty MAC: FORMERR, no answer data; symbolic times; unwind 34"
 //   sym="id, flags, qtype, qclass, key, original_id, error, time, fudge, now"
 c10_stubs!(c10_formerr_sha256_l0, 34, verify_case::<0, 29>(AlgSel::Sha256, true, Clock::Any, false));
 
-// @harness name=c10_formerr_sha256_l33 props=C10 tier=quick mem=6 t=1800 stubs="S5,S5a,S8" kani="--no-assertion-reach-checks"
+// @harness name=c10_formerr_sha256_l33 props=C10 tier=quick mem=6 t=1800 stubs="S5,S5a,S8,S9" kani="--no-assertion-reach-checks"
 //   fn="verify_tsig_and_write_tsig_rr,check_mac_size" bound="hmac-sha256 with a 33-octet MAC (longer than the output): FORMERR; symbolic times; unwind 35"
 //   sym="id, flags, qtype, qclass, key, mac:[u8;33], original_id, error, time, fudge, now"
 c10_stubs!(c10_formerr_sha256_l33, 35, verify_case::<33, 62>(AlgSel::Sha256, true, Clock::Any, false));
 
-// @harness name=c10_formerr_sha256_l10 props=C10 tier=thorough mem=6 t=1800 stubs="S5,S5a,S8" kani="--no-assertion-reach-checks"
+// @harness name=c10_formerr_sha256_l10 props=C10 tier=thorough mem=6 t=1800 stubs="S5,S5a,S8,S9" kani="--no-assertion-reach-checks"
 //   fn="verify_tsig_and_write_tsig_rr,check_mac_size" bound="hmac-sha256 with a 10-octet MAC (acceptable for hmac-sha1 only): FORMERR; unwind 34"
 //   sym="id, flags, qtype, qclass, key, mac:[u8;10], original_id, error, time, fudge, now"
 c10_stubs!(c10_formerr_sha256_l10, 34, verify_case::<10, 39>(AlgSel::Sha256, true, Clock::Any, false));
 
-// @harness name=c10_formerr_sha1_l21 props=C10 tier=thorough mem=6 t=1800 stubs="S5,S5a,S8" kani="--no-assertion-reach-checks"
+// @harness name=c10_formerr_sha1_l21 props=C10 tier=thorough mem=6 t=1800 stubs="S5,S5a,S8,S9" kani="--no-assertion-reach-checks"
 //   fn="verify_tsig_and_write_tsig_rr,check_mac_size" bound="hmac-sha1 with a 21-octet MAC: FORMERR; unwind 34"
 //   sym="id, flags, qtype, qclass, key, mac:[u8;21], original_id, error, time, fudge, now"
 c10_stubs!(c10_formerr_sha1_l21, 34, verify_case::<21, 48>(AlgSel::Sha1, true, Clock::Any, false));
